@@ -1,6 +1,7 @@
 package main
 
 import (
+	"bytes"
 	"flag"
 	"fmt"
 	"math/rand"
@@ -247,6 +248,55 @@ func vserbig(args []string) error {
 					rep.Nontrivial++
 				}()
 			}
+		}
+	}
+	// (g) size sweep: every header quantity (tape words, tags, value words, string bytes, encoded block lengths) passes through
+	// 1..400 and through 16200..16500 (varint length boundaries 127/128 and 16383/16384) in steps of one
+	{
+		try := func(desc string, text []byte, modes [][2]int) {
+			pj, err := run.Parse(append([]byte{}, text...), run.Cfg{AVX512: run.HasAVX512, Copy: true}, nil)
+			if err != nil {
+				rep.Add(run.Mismatch{Property: *prop, Sig: "parse:" + desc, Want: "accept", Got: err.Error()})
+				return
+			}
+			it := pj.Iter()
+			want, _ := it.MarshalJSON()
+			for _, m := range modes {
+				func() {
+					defer func() {
+						if p := recover(); p != nil {
+							rep.Add(run.Mismatch{Property: *prop, Sig: fmt.Sprintf("panic:%s:%d", desc, m[0]), Want: "no panic", Got: fmt.Sprint(p)})
+						}
+					}()
+					sers[0].CompressMode(simdjson.CompressMode(m[0]))
+					sers[1].CompressMode(simdjson.CompressMode(m[1]))
+					back, err := sers[1].Deserialize(sers[0].Serialize(nil, *pj), nil)
+					rep.Evaluations++
+					if err != nil {
+						rep.Add(run.Mismatch{Property: *prop, Sig: fmt.Sprintf("deser:%s:%d", desc, m[0]), Cfg: map[string]interface{}{"doc": desc, "ser_mode": m[0]}, Want: "round trip", Got: err.Error()})
+						return
+					}
+					bi := back.Iter()
+					got, _ := bi.MarshalJSON()
+					if !bytes.Equal(got, want) {
+						rep.Add(run.Mismatch{Property: *prop, Sig: fmt.Sprintf("doc:%s:%d", desc, m[0]), Cfg: map[string]interface{}{"doc": desc, "ser_mode": m[0]}, Want: "the same document", Got: "different"})
+					}
+					rep.Nontrivial++
+				}()
+			}
+		}
+		all := [][2]int{{0, 0}, {1, 1}, {2, 3}, {3, 2}}
+		for n := 0; n <= 400; n++ {
+			try(fmt.Sprintf("one string of %d bytes", n), []byte(`["`+strings.Repeat("s", n)+`"]`), all)
+			try(fmt.Sprintf("array of %d small integers", n), []byte("["+strings.TrimSuffix(strings.Repeat("7,", n), ",")+"]"), all[:2])
+			try(fmt.Sprintf("array of %d literals", n), []byte("["+strings.TrimSuffix(strings.Repeat("null,", n), ",")+"]"), all[:1])
+		}
+		for n := 16200; n <= 16500; n++ {
+			try(fmt.Sprintf("one string of %d bytes", n), []byte(`["`+strings.Repeat("s", n)+`"]`), all[:2])
+		}
+		for _, n := range []int{2030, 2031, 2032, 2033, 2034, 2035, 2040, 2041, 2042, 2043, 2044, 2045, 2046, 2047, 2048, 2049, 8188, 8189, 8190, 8191, 8192} {
+			try(fmt.Sprintf("array of %d small integers", n), []byte("["+strings.TrimSuffix(strings.Repeat("7,", n), ",")+"]"), all[:2])
+			try(fmt.Sprintf("array of %d literals", n*8), []byte("["+strings.TrimSuffix(strings.Repeat("null,", n*8), ",")+"]"), all[:1])
 		}
 	}
 	rep.Cases = int64(len(docs) * 2)
